@@ -66,12 +66,12 @@ def fill_case(rng, c, sim):
         k = rng.randint(1, len(sts))
         c["return_statuses"] = sts[:k] if rng.random() < 0.7 else rng.sample(sts, k)
     else:
-        fam = rng.choice(["sir", "threshold", "sis", "twohop"])
+        fam = rng.choice(["sir", "threshold", "sis", "twohop", "sei", "sei"])
         c["family"] = fam
         c["tau"] = str(rng.choice(R))
         c["gamma"] = str(rng.choice(R + [F(0)]))
         c["k"] = rng.randint(1, 2)
-        sts = ["S", "I", "R"] if fam in ("sir", "threshold", "twohop") else ["S", "I"]
+        sts = ["S", "I", "R"] if fam in ("sir", "threshold", "twohop", "sei") else ["S", "I"]
         c["statuses"] = sts
         c["IC"] = [rng.choice(["S", "S", "I"] + (["R"] if "R" in sts and rng.random() < 0.3 else [])) for _ in range(n)]
         c["return_statuses"] = sts if rng.random() < 0.7 else sts[: rng.randint(1, len(sts))]
@@ -142,6 +142,10 @@ def call(case, G, lab, tr, full):
         def rate_function(G_, node, status, parameters):
             calls.append(("rate", order[node], tuple(status[u] for u in G_)))
             s = status[node]
+            if fam == "sei":      # 'I' = exposed (not infectious), 'R' = infectious and absorbing
+                if s == "S":
+                    return tau * sum(1 for v in G_.neighbors(node) if status[v] == "R")
+                return gamma if s == "I" else 0
             if s == "I":
                 return gamma
             if s == "S":
@@ -160,6 +164,8 @@ def call(case, G, lab, tr, full):
             raise RuntimeError("chooser asked about a node with rate 0")
 
         def get_influence_set(G_, node, status, parameters):
+            if fam == "sei":      # only a node that has just become infectious ('R') changes its neighbours' rates
+                return sorted(G_.neighbors(node), key=lambda x: order[x]) if status[node] == "R" else []
             if fam == "twohop":
                 near = set(G_.neighbors(node))
                 for v in list(near):
